@@ -460,52 +460,52 @@ type ModClause struct {
 }
 
 type CalleeSpec struct {
-	Name     string   // key to match call sites
-	Params   []string // positional names for args (receiver not included)
-	Recv     string   // optional name for receiver/callee value
-	Requires []*Clause
-	Ensures  []*Clause
-	Sets     []*SetClause
-	Modifies *ModClause // nil => default by tier
-	Pure     bool       // no heap effect at all
-	Private  bool       // assumption: the callee neither retains nor hands on its pointer arguments (objects stay unpublished)
-	Havoc    bool       // havoc all heaps
-	Results  []string   // names for results
-	MutGhosts []string  // ghosts havocked by the call (then constrained by ensures)
-	Preserves []string  // with havoc: type names whose heap components the call does not write
-	Used     int
+	Name      string   // key to match call sites
+	Params    []string // positional names for args (receiver not included)
+	Recv      string   // optional name for receiver/callee value
+	Requires  []*Clause
+	Ensures   []*Clause
+	Sets      []*SetClause
+	Modifies  *ModClause // nil => default by tier
+	Pure      bool       // no heap effect at all
+	Private   bool       // assumption: the callee neither retains nor hands on its pointer arguments (objects stay unpublished)
+	Havoc     bool       // havoc all heaps
+	Results   []string   // names for results
+	MutGhosts []string   // ghosts havocked by the call (then constrained by ensures)
+	Preserves []string   // with havoc: type names whose heap components the call does not write
+	Used      int
 }
 
 type LoopSpec struct {
 	IterEnsures []*Clause // proved at every back edge (end of an iteration); not assumed at the head
-	Invariants []*Clause
-	Decreases  Expr
+	Invariants  []*Clause
+	Decreases   Expr
 }
 
 type FuncSpec struct {
-	Name      string // function name as written (RelString or full)
-	Pkg       string // package path the file belongs to ("" for lib)
-	ParamsOv  []string
-	ResultsOv []string
-	Ghosts    []*GhostDecl
-	Requires  []*Clause
-	Ensures   []*Clause
-	Modifies  *ModClause
-	Loops     map[int]*LoopSpec
-	Callees   []*CalleeSpec
-	Asserts   map[string][]*Clause // at "<text>"
-	SetAts    map[string][]*SetClause // ghost assignment anchored before a statement
-	Options   map[string]string    // mode, allow-exit, check ...
-	Pure      bool
-	Trusted   bool // lib contract (never verified against a body)
-	File      string
-	Lemmas    []*Clause
-	AssumeSafe []string // source-line anchors whose automatic safety obligations are assumed (listed as assumptions)
-	Preserves []string // without a modifies clause: type names whose heap components this function does not write (unchecked at call sites of unverified callees; checked when the function is verified)
-	Acquires  []Expr // locks held on return that were not held on entry (x.mu)
-	Releases  []Expr // locks held on entry and released before return
-	Binds     map[string]map[string]Expr // callee name -> callee ghost -> expression (evaluated at the call site)
-	MutGhosts []string                   // ghosts this function may change (declared with "ghostout")
+	Name       string // function name as written (RelString or full)
+	Pkg        string // package path the file belongs to ("" for lib)
+	ParamsOv   []string
+	ResultsOv  []string
+	Ghosts     []*GhostDecl
+	Requires   []*Clause
+	Ensures    []*Clause
+	Modifies   *ModClause
+	Loops      map[int]*LoopSpec
+	Callees    []*CalleeSpec
+	Asserts    map[string][]*Clause    // at "<text>"
+	SetAts     map[string][]*SetClause // ghost assignment anchored before a statement
+	Options    map[string]string       // mode, allow-exit, check ...
+	Pure       bool
+	Trusted    bool // lib contract (never verified against a body)
+	File       string
+	Lemmas     []*Clause
+	AssumeSafe []string                   // source-line anchors whose automatic safety obligations are assumed (listed as assumptions)
+	Preserves  []string                   // without a modifies clause: type names whose heap components this function does not write (unchecked at call sites of unverified callees; checked when the function is verified)
+	Acquires   []Expr                     // locks held on return that were not held on entry (x.mu)
+	Releases   []Expr                     // locks held on entry and released before return
+	Binds      map[string]map[string]Expr // callee name -> callee ghost -> expression (evaluated at the call site)
+	MutGhosts  []string                   // ghosts this function may change (declared with "ghostout")
 }
 
 type SpecFile struct {
